@@ -17,6 +17,9 @@ pub struct GenCfg {
     /// private resources > 58, CXIMS bitmaps > 255). Entry framing is then C18's matter, but table
     /// checksum and Length must still hold, so only the C01/C02 batches turn this on.
     pub oversize: bool,
+    /// thorough tier only: much larger bounds (histories of up to 30 000 operations, SLIT with ~1 000
+    /// localities, generic tables of hundreds of KiB, megabyte slices into the accumulator)
+    pub deep: bool,
 }
 
 pub const TABLES: [K; 13] = [K::Xsdt, K::Mcfg, K::Madt, K::Srat, K::Slit, K::Hmat, K::Pptt, K::Rhct, K::Rimt, K::Viot, K::Cedt, K::Hest, K::Rqsc];
@@ -454,12 +457,13 @@ fn length_class(rng: &mut Rng, w: &[u64; 7]) -> usize {
     1
 }
 
-fn n_for_class(rng: &mut Rng, class: usize) -> usize {
+fn n_for_class(rng: &mut Rng, class: usize, deep: bool) -> usize {
     match class {
         0 => 0,
         1 => 1 + rng.below(12) as usize,
         2 => 13 + rng.below(188) as usize,
         3 => 250 + rng.below(14) as usize,
+        4 if deep => 3_000 + rng.below(27_000) as usize,
         4 => 300 + rng.below(2700) as usize,
         5 => 65_530 + rng.below(12) as usize,
         _ => 0, // 16M handled by caller
@@ -489,7 +493,7 @@ pub fn gen_trace(rng: &mut Rng, cfg: &GenCfg) -> Op {
             if class == 6 && !matches!(subject, Xsdt | Mcfg) {
                 class = 3;
             }
-            let mut n = n_for_class(rng, class);
+            let mut n = n_for_class(rng, class, cfg.deep);
             if class == 6 {
                 // cross 2^24 bytes: header + n * entry size
                 n = if subject == Xsdt { (1 << 24) / 8 + 2 } else { (1 << 24) / 16 + 2 };
@@ -522,6 +526,7 @@ pub fn gen_trace(rng: &mut Rng, cfg: &GenCfg) -> Op {
                 0 => 0,
                 1 => 1,
                 2 | 3 => 2 + rng.below(5),
+                4 if cfg.deep => 1_000 + rng.below(25),
                 4 => 16,
                 5 => 255 + rng.below(3),
                 6 => 100 + rng.below(201),
@@ -617,7 +622,7 @@ pub fn gen_trace(rng: &mut Rng, cfg: &GenCfg) -> Op {
             }
         }
         TcpaServer => {
-            let n = n_for_class(rng, class.min(2));
+            let n = n_for_class(rng, class.min(2), false);
             let enumd = rng.val(8);
             for _ in 0..n {
                 if faults && rng.chance(1, 10) {
@@ -645,7 +650,7 @@ pub fn gen_trace(rng: &mut Rng, cfg: &GenCfg) -> Op {
         Rsdp => r.a.push(rng.val(64)),
         Spcr | Facs => {}
         Fadt => {
-            let n = n_for_class(rng, class.min(2));
+            let n = n_for_class(rng, class.min(2), false);
             let profile = rng.below(9);
             let mode = rng.below(4);
             for _ in 0..n {
@@ -674,6 +679,7 @@ pub fn gen_trace(rng: &mut Rng, cfg: &GenCfg) -> Op {
         }
         SdtSubj => {
             let len = match rng.below(10) {
+                1 if cfg.deep => 200_000 + rng.below(100_000),
                 // a table just below 64 KiB, so that a handful of appends carry the length across 65535 -> 65536
                 0 if rng.chance(1, 6) => 65_480 + rng.below(56),
                 0 => 36,
@@ -776,6 +782,7 @@ pub fn gen_trace(rng: &mut Rng, cfg: &GenCfg) -> Op {
                         2 => 255,
                         3 => 256,
                         4 => 257,
+                        5 if n < 40 && cfg.deep => 1 << 20,
                         5 if n < 40 => 65_536,
                         _ => rng.below(40) as usize,
                     }
